@@ -43,6 +43,7 @@ INVARIANT WorkflowPreconditions
 INVARIANT OutputsComputed
 INVARIANT CommandDefaults
 INVARIANT ModePrecedence
+INVARIANT NacFactorRule
 """
 
 CFG_WFT = """INIT WTInit
@@ -61,6 +62,7 @@ INVARIANT WorkflowPreconditions
 INVARIANT OutputsComputed
 INVARIANT CommandDefaults
 INVARIANT ModePrecedence
+INVARIANT NacFactorRule
 """
 
 SBASE = dict(dim=False, disp=False, fsets=False, fsz=False, mode="none", nac=False, fcsym=False, fccalc="",
@@ -77,14 +79,16 @@ EXTENDS CLIWorkflow
 B == BOOLEAN
 Cmds == {"phonopy", "load"}
 SBase == %s
-WellFormed(i) == ({"yaml_fs", "yaml_fc", "yaml_nac"} \\cap i # {}) => "yaml" \\in i
+WellFormed(i) == /\\ (({"yaml_fs", "yaml_fc", "yaml_nac", "yaml_calc", "yaml_nac_factor"} \\cap i # {}) => "yaml" \\in i)
+                 /\\ ("BORN_factor" \\in i => "BORN" \\in i) /\\ ("yaml_nac_factor" \\in i => "yaml_nac" \\in i)
 FamA == {[id |-> "A", cmd |-> c, inp |-> i,
           s |-> [SBase EXCEPT !.mode = "mesh", !.dim = d, !.readfc = r, !.rfmt_hdf5 = h, !.fcsym = y, !.fccalc = f]] :
          c \\in Cmds, i \\in {x \\in SUBSET (%s \\cup {"yaml", "yaml_fs", "yaml_fc", "FORCE_SETS", "FORCE_CONSTANTS",
                                           "force_constants.hdf5"}) : WellFormed(x)},
          d \\in %s, r \\in B, h \\in B, y \\in B, f \\in {"", "traditional", "symfc"}}
 FamN == {[id |-> "N", cmd |-> c, inp |-> i, s |-> [SBase EXCEPT !.mode = "mesh", !.nac = n, !.disp = d, !.dim = TRUE]] :
-         c \\in Cmds, i \\in {x \\in SUBSET {"cell", "yaml", "yaml_nac", "BORN", "FORCE_SETS"} : WellFormed(x)},
+         c \\in Cmds, i \\in {x \\in SUBSET {"cell", "yaml", "yaml_nac", "yaml_calc", "yaml_nac_factor", "BORN",
+                                          "BORN_factor", "FORCE_SETS"} : WellFormed(x)},
          n \\in B, d \\in B}
 FamF == {[id |-> "F", cmd |-> c, inp |-> i, s |-> [SBase EXCEPT !.fsets = f, !.fsz = z, !.save_params = p]] :
          c \\in Cmds, i \\in SUBSET {"disp", "yaml", "forcefiles", "FORCE_SETS"}, f \\in B, z \\in B, p \\in B}
@@ -147,12 +151,15 @@ class Setup:
     def cell(self):
         return PhonopyAtoms(symbols=self.symbols, cell=self.lattice, scaled_positions=self.scaled)
 
-    def make(self, st, unitcell=None):
-        """The library object an invocation with settings `st` works on (None: defaults)."""
+    def make(self, st, unitcell=None, calculator="setup"):
+        """The library object an invocation with settings `st` works on (None: defaults);
+        `calculator`: the calculator of the object (default: the set-up's)."""
+        calc = self.calcname if calculator == "setup" else calculator
+        units = get_default_physical_units(calc)
         kw = {}
         if st is not None:
             factor = st.frequency_conversion_factor
-            kw = dict(factor=factor if factor is not None else self.units["factor"],
+            kw = dict(factor=factor if factor is not None else units["factor"],
                       frequency_scale_factor=st.frequency_scale_factor,
                       dynamical_matrix_decimals=st.dm_decimals, force_constants_decimals=st.fc_decimals,
                       group_velocity_delta_q=st.group_velocity_delta_q,
@@ -160,10 +167,10 @@ class Setup:
                       is_symmetry=st.is_symmetry, store_dense_svecs=st.store_dense_svecs)
             pm = st.primitive_matrix if st.primitive_matrix is not None else self.pmat
         else:
-            kw = dict(factor=self.units["factor"])
+            kw = dict(factor=units["factor"])
             pm = self.pmat
         ph = Phonopy(self.cell() if unitcell is None else unitcell, self.S, primitive_matrix=pm,
-                     calculator=self.calcname, log_level=0, **kw)
+                     calculator=calc, log_level=0, **kw)
         if st is not None and st.masses is not None:
             ph.masses = st.masses
         return ph
@@ -261,6 +268,10 @@ def abstract_inputs(setup, cmd, st, pos, force_files):
             inp.add("yaml_fc")
         if "nac" in y and "born_effective_charge" in y["nac"]:
             inp.add("yaml_nac")
+            if "unit_conversion_factor" in y["nac"]:
+                inp.add("yaml_nac_factor")
+        if y.get("phonopy", {}).get("calculator"):
+            inp.add("yaml_calc")
         disp = y.get("displacements")
         if disp and ("forces" in disp[0]):
             inp.add("yaml_fs")
@@ -269,6 +280,14 @@ def abstract_inputs(setup, cmd, st, pos, force_files):
     for f in ("FORCE_SETS", "FORCE_CONSTANTS", "force_constants.hdf5", "BORN", "QPOINTS"):
         if ex(f):
             inp.add(f)
+    if ex("BORN"):
+        with open(os.path.join(d, "BORN")) as fh:
+            first = fh.readline().split()
+        try:
+            float(first[0])
+            inp.add("BORN_factor")
+        except (ValueError, IndexError):
+            pass
     if force_files and all(ex(f) for f in force_files):
         inp.add("forcefiles")
     return inp, yaml_file
@@ -297,13 +316,21 @@ class Replay:
         self.su, self.cmd, self.st, self.confs = setup, cmd, st, confs
         self.indir, self.yaml_file = indir, yaml_file
         cell = None
+        opt_calc = None if st.calculator in (None, "vasp") else st.calculator
+        self.calc_option, self.calc_yaml = opt_calc, None
+        calc = opt_calc
+        self.cellsrc = cellsrc
         if cellsrc == "yaml":
-            # the unit cell as the phonopy-yaml input holds it (printed precision of that file)
-            y = C.load_yaml(os.path.join(indir, yaml_file))["unit_cell"]
+            # the unit cell and the calculator as the phonopy-yaml input holds them
+            yy = C.load_yaml(os.path.join(indir, yaml_file))
+            self.calc_yaml = yy["phonopy"].get("calculator")
+            if self.calc_yaml is not None:
+                calc = self.calc_yaml
+            y = yy["unit_cell"]
             cell = PhonopyAtoms(symbols=[p["symbol"] for p in y["points"]], cell=y["lattice"],
                                 scaled_positions=[p["coordinates"] for p in y["points"]],
                                 masses=[p["mass"] for p in y["points"]])
-        self.ph = setup.make(st, unitcell=cell)
+        self.ph = setup.make(st, unitcell=cell, calculator=calc)
         self.res = {}
 
     def run(self, calls):
@@ -313,15 +340,32 @@ class Replay:
 
     # -- inputs
     def c_set_nac(self, arg):
-        if arg == "yaml":  # as the phonopy-yaml input holds them
+        src, fac = arg.split(":", 1)
+        if src == "yaml":  # as the phonopy-yaml input holds them
             y = C.load_yaml(os.path.join(self.indir, self.yaml_file))["nac"]
             nac = dict(born=np.array(y["born_effective_charge"], dtype=float),
-                       dielectric=np.array(y["dielectric_constant"], dtype=float),
-                       factor=y.get("unit_conversion_factor", self.su.units["nac_factor"]))
+                       dielectric=np.array(y["dielectric_constant"], dtype=float))
             if "method" in y:
                 nac["method"] = y["method"].lower()
         else:
-            nac = dict(born=self.su.born.copy(), dielectric=self.su.eps.copy(), factor=self.su.units["nac_factor"])
+            nac = dict(born=self.su.born.copy(), dielectric=self.su.eps.copy())
+        # the unit-conversion factor in force, by the specification's rule
+        if fac == "yaml":
+            nac["factor"] = float(C.load_yaml(os.path.join(self.indir, self.yaml_file))["nac"]["unit_conversion_factor"])
+        elif fac == "BORN":
+            with open(os.path.join(self.indir, "BORN")) as fh:
+                nac["factor"] = float(fh.readline().split()[0])
+        else:
+            calc = self.calc_yaml if fac == "default:yaml" else self.calc_option
+            nac["factor"] = get_default_physical_units(calc)["nac_factor"]
+        self.res["nac_factor"] = nac["factor"]
+        if src == "BORN" and self.cellsrc == "yaml":
+            # the library on the same files: phonopy.load(yaml, born_filename=BORN)
+            import phonopy
+
+            lib = phonopy.load(os.path.join(self.indir, self.yaml_file), born_filename=os.path.join(self.indir, "BORN"),
+                               produce_fc=False, log_level=0)
+            self.res["nac_factor_lib"] = lib.nac_params["factor"]
         if self.st.nac_method is not None:
             nac["method"] = self.st.nac_method
         self.ph.nac_params = nac
@@ -593,6 +637,8 @@ def compare_outputs(setup, rp, res, written, cmp, outdir):
     st = rp.st
     path = lambda f: os.path.join(d, f)  # noqa: E731
     P = cmp.printed
+    if "nac_factor_lib" in res:
+        cmp.close("nac:factor of phonopy.load on the same files", res["nac_factor"], res["nac_factor_lib"], 1e-12)
     for f in written:
         if f == "phonopy_disp.yaml" and "dataset" in res:
             y = C.load_yaml(path(f))
@@ -797,6 +843,9 @@ def compare_summary(setup, rp, fpath, cmp, f):
         cmp.equal(f + ":holds displacements", has_disp,
                   bool((st.include_displacements or want_fs) and ph.dataset is not None))
     cmp.equal(f + ":holds nac", has_nac, bool(ph.nac_params is not None and (st.include_nac_params or st.save_params)))
+    if has_nac and ph.nac_params is not None:
+        cmp.printed(f + ":nac unit_conversion_factor", y["nac"].get("unit_conversion_factor"), ph.nac_params["factor"],
+                    C.decimals(t, "unit_conversion_factor"))
     cwd = os.getcwd()
     empty = tempfile.mkdtemp(prefix="c18reload_")
     compact = ph.force_constants is None or ph.force_constants.shape[0] != ph.force_constants.shape[1]
@@ -828,7 +877,7 @@ def compare_summary(setup, rp, fpath, cmp, f):
         # the reloaded object reproduces the phonons of the run (up to the printed masses)
         q = [[0.13, 0.21, 0.37], [0.5, 0.0, 0.0]]
         ph2.run_qpoints(q)
-        ref = setup.make(st, unitcell=ph.unitcell)
+        ref = setup.make(st, unitcell=ph.unitcell, calculator=ph.calculator)
         if has_nac:
             ref.nac_params = ph.nac_params
         ref.force_constants = ph.force_constants
@@ -922,6 +971,28 @@ def workflow_cases(su, full):
             add("readfc-auto", cmd, ["--mesh"] + M + ["--nomeshsym"])
         add("rm-fc", cmd, None, before=lambda su: [os.remove(os.path.join(su.dir, f)) for f in
                                                    ("FORCE_CONSTANTS",) if os.path.exists(os.path.join(su.dir, f))])
+        # NAC: where the calculator comes from (option / yaml) x BORN line 1 (default / explicit factor) x
+        # NAC parameters stored in the yaml input or not
+        nacopt = ["--nac"] if cmd == "phonopy" else []
+        qn = ["--qpoints", "0 0 0 0.1 0 0", "--q-direction", "1", "0", "0"]
+        rm = lambda *fs: (lambda su: [os.remove(os.path.join(su.dir, f)) for f in fs  # noqa: E731
+                                      if os.path.exists(os.path.join(su.dir, f))])
+        cp = lambda a, b: (lambda su: shutil.copy(os.path.join(su.dir, a), os.path.join(su.dir, b)))  # noqa: E731
+        add("write-BORN", cmd, None, before=lambda su: C.write_born(os.path.join(su.dir, "BORN"), su.eps, su.born_indep))
+        if cmd == "phonopy":
+            add("nac-calc-option-cell", cmd, cellargs + nacopt + qn)
+        else:
+            add("nac-calc-option-and-yaml", cmd, base + calc["opt"] + qn)
+        add("nac-calc-yaml", cmd, base + nacopt + qn)
+        add("keep-nac", cmd, None, before=cp("phonopy.yaml", "with_nac.yaml"))
+        add("write-BORN-factor", cmd, None,
+            before=lambda su: C.write_born(os.path.join(su.dir, "BORN"), su.eps, su.born_indep, factor=3.21))
+        add("nac-born-factor", cmd, base + nacopt + qn)
+        add("keep-nac-factor", cmd, None, before=cp("phonopy.yaml", "with_nac_f.yaml"))
+        add("rm-BORN", cmd, None, before=rm("BORN"))
+        add("nac-from-yaml", cmd, (base if cmd == "load" else []) + ["with_nac.yaml"] + nacopt + qn)
+        add("nac-from-yaml-factor", cmd, (base if cmd == "load" else []) + ["with_nac_f.yaml"] + nacopt + qn)
+        add("rm-nac-yaml", cmd, None, before=rm("with_nac.yaml", "with_nac_f.yaml"))
         if not full:
             continue
         add("mesh-nomeshsym-gv", cmd, base + ["--mesh"] + M + ["--nomeshsym", "--gv"])
